@@ -166,4 +166,41 @@ example : (step { grid := false, nech := 2, nextUid := 2, uids := [0, 1], names 
                   cols := [[some 1, some 2], [some 3, some 4]], loc := List.replicate NLOC [] }
               (.setRow 1 [some 7, none])).map (·.cols) = some [[some 1, some 7], [some 3, none]] := by decide
 
+/-! ### a row written is the row read -/
+
+/-- what was written is read back: after an accepted whole-row write, reading the same sample returns the values
+given, in column order ("every designation of a column refers to the same data") -/
+theorem setRow_readRow (s s' : State) (iech : Int) (vals : List Val) (h : Inv s)
+    (hs : step s (.setRow iech vals) = some s') (hl : vals.length = ncol s)
+    (h0 : 0 ≤ iech) (h1 : iech < (s.nech : Int)) : readRow s' iech = vals := by
+  have hne : s'.nech = s.nech := by
+    simp only [step] at hs
+    split at hs <;> injection hs with hs <;> subst hs <;> rfl
+  apply List.ext_getElem?
+  intro c
+  have hlen : (readRow s' iech).length = s'.cols.length := by
+    unfold readRow; split <;> simp
+  have hinv' : Inv s' := step_full s s' _ h (by trivial) hs
+  by_cases hc : c < ncol s
+  · have hi : iech.toNat < s.nech := by omega
+    have hcell := setRow_frame s s' iech vals h hs c iech.toNat hc hi
+    rw [if_pos ⟨hl, h0, h1, rfl⟩] at hcell
+    have hcl' : c < s'.cols.length := by
+      rw [hinv'.colsLen]
+      simp only [step] at hs
+      split at hs <;> injection hs with hs <;> subst hs <;> exact hc
+    have hcv : c < vals.length := by rw [hl]; exact hc
+    unfold readRow
+    rw [if_pos (by simp [h0, hne, h1])]
+    simp only [List.getElem?_map, List.getElem?_eq_getElem hcl', Option.map_some, List.getElem?_eq_getElem hcv]
+    simp only [cell, List.getD_eq_getElem?_getD, List.getElem?_eq_getElem hcl', Option.getD_some,
+      List.getElem?_eq_getElem hcv] at hcell
+    rw [hcell]
+  · have hcl' : ¬ c < s'.cols.length := by
+      rw [hinv'.colsLen]
+      simp only [step] at hs
+      split at hs <;> injection hs with hs <;> subst hs <;> exact hc
+    have : ¬ c < (readRow s' iech).length := by rw [hlen]; exact hcl'
+    rw [List.getElem?_eq_none (by omega), List.getElem?_eq_none (by rw [hl]; omega)]
+
 end GstProofs.C07
